@@ -804,12 +804,13 @@ class TOCSchemas:
 
     def __getitem__(self, schema_ref: PluginRef):
         node_path = self._jsonschema_path_for(schema_ref)
-        assert node_path in self._raw
+        if node_path not in self._raw:
+            raise KeyError(schema_ref)
         return self._load_json(cast(H5DatasetLike, self._raw[node_path]))
 
     def get(self, schema_ref: PluginRef):
         try:
-            self[schema_ref]
+            return self[schema_ref]
         except KeyError:
             return None
 
